@@ -138,3 +138,28 @@ Theorem C18_irregular_loop_refuted :
     fst (get_next E (PSun key None) pstate0 dt) = Raise EInfiniteLoop.
 Proof. exact sun_irregular_loop_refuted. Qed.
 Print Assumptions C18_irregular_loop_refuted.
+
+(* FURTHER FINDING F15 (reported; the elevation trigger only: astral.time_at_elevation answers for UTC date d with
+   an instant of date d+1 at western longitudes): an event still ahead on the reference instant's own UTC day
+   is passed over, and with a filter every other date is never asked for *)
+Theorem C18_shifted_skips_pending :
+  forall E key evf lo hi st dt,
+    utc_regular_shift (sun_ev E key) evf 1 lo hi -> location E <> None -> cache_coherent E st ->
+    lo <= utc_day dt - 1 -> utc_day dt <= hi ->
+    dt < round_up_sec (evf (utc_day dt - 1)) ->
+    fst (get_next E (PSun key None) st dt) = Ok (round_up_sec (evf (utc_day dt))) /\
+    dt < round_up_sec (evf (utc_day dt - 1)) < round_up_sec (evf (utc_day dt)).
+Proof. exact sun_shifted_skips_pending. Qed.
+Print Assumptions C18_shifted_skips_pending.
+
+Theorem C18_following_date_refuted :
+  exists (E : penv) (key : nat) (f : filt) (dt v d e : Z),
+    cache_coherent E pstate0 /\
+    utc_regular_shift (sun_ev E key) (table_fun chicago_elev_setting_2025) 1 20255 20264 /\
+    fst (get_next E (PSun key (Some f)) pstate0 dt) = Ok v /\
+    sun_ev E key d = Some e /\
+    dt < round_up_sec e < v /\
+    allow_opt (pz E) (Some f) (round_up_sec e) = true /\
+    v - round_up_sec e > 6 * DAY.
+Proof. exact sun_following_date_refuted. Qed.
+Print Assumptions C18_following_date_refuted.
